@@ -135,6 +135,20 @@ def _circuit(ctx, which):
         c.bs(1, reflectivity=f(1, 2))
         c.herald(0, 1, 1)
         return c, lw.State([1, 1])
+    if which == "hom-herald":
+        # the heralded output mode can hold two photons: threshold detection must cap it
+        # to one click *before* the herald is checked
+        c = lw.Circuit(2)
+        c.bs(0, reflectivity=f(1, 2))
+        c.herald(1, 0, 0)
+        return c, lw.State([1])
+    if which == "bunch-herald":
+        c = lw.Circuit(3)
+        c.bs(0, reflectivity=f(1, 3))
+        c.bs(1, reflectivity=f(2, 5), convention="H")
+        c.bs(0, reflectivity=f(1, 2))
+        c.herald(1, 1, 0)
+        return c, lw.State([1, 1])
     raise AssertionError(which)
 
 
@@ -256,8 +270,8 @@ def h_sample_n_outputs(ctx, which, postsel, min_det, counting, sampler_kind):
         try:
             smp = lw.emulator.QuickSampler(c, inp, photon_counting=counting, post_select=ps)
             pd = smp.probability_distribution
-        except ValueError:
-            ctx.reached()
+        except (ValueError, lw.emulator.EmulatorError):
+            ctx.reached()  # nothing acceptable on this circuit: a clean refusal
             return
         call = lambda: smp.sample_N_outputs(N, seed=3)  # noqa: E731
         want = {tuple(k.s): v for k, v in pd.items()}
@@ -322,7 +336,11 @@ def h_sample_single(ctx, which, sampler_kind):
             ctx.reached()
             return
         smp = lw.emulator.QuickSampler(c, inp)
-    pd = smp.probability_distribution
+    try:
+        pd = smp.probability_distribution
+    except (ValueError, lw.emulator.EmulatorError):
+        ctx.reached()
+        return
     en = stubs.Enumerator()
     monos = []
 
@@ -366,7 +384,11 @@ def h_seed_reproducible(ctx, which, method):
             return
         smp = lw.emulator.QuickSampler(c, inp)
         call = lambda: smp.sample_N_outputs(2, seed=42)  # noqa: E731
-    smp.probability_distribution
+    try:
+        smp.probability_distribution
+    except (ValueError, lw.emulator.EmulatorError):
+        ctx.reached()
+        return
     en = stubs.Enumerator()
 
     def once():
@@ -386,7 +408,7 @@ def harnesses(tier):
         states += [s for k in (2, 3, 4) for s in ref.fock_states(3, k)][::2]
     dl = [dict(state=tuple(s), counting=cnt) for s in states for cnt in (True, False)]
     ni = []
-    for which in ("bs", "herald1", "herald0-lossy"):
+    for which in ("bs", "herald1", "herald0-lossy", "hom-herald", "bunch-herald"):
         for postsel in ("none", "rule", "func"):
             for md in (0, 1, 2):
                 for cnt in (True, False):
@@ -395,12 +417,12 @@ def harnesses(tier):
                     ni.append(dict(which=which, postsel=postsel, min_det=md, counting=cnt, N=1))
     if tier != "quick":
         ni += [dict(which=w, postsel="none", min_det=1, counting=False, N=2) for w in ("bs", "herald1")]
-    no = [dict(which=w, postsel=p, min_det=m, counting=cnt, sampler_kind=k) for w in ("bs", "herald1", "herald0-lossy") for p in ("none", "rule", "func") for m in (0, 1, 2) for cnt in (True, False) for k in ("sampler", "quick") if not (k == "quick" and m > 0)]
+    no = [dict(which=w, postsel=p, min_det=m, counting=cnt, sampler_kind=k) for w in ("bs", "herald1", "herald0-lossy", "hom-herald", "bunch-herald") for p in ("none", "rule", "func") for m in (0, 1, 2) for cnt in (True, False) for k in ("sampler", "quick") if not (k == "quick" and m > 0)]
     return [
         ("detector-law", h_detector_law, dl),
         ("sample_N_inputs", h_sample_n_inputs, ni, dict(max_paths=200)),
         ("sample_N_outputs", h_sample_n_outputs, no),
         ("dark-counts-refused", h_dark_counts_refused, [dict(which="bs")]),
-        ("sample", h_sample_single, [dict(which=w, sampler_kind=k) for w in ("bs", "herald1", "herald0-lossy") for k in ("sampler", "quick")]),
-        ("seed", h_seed_reproducible, [dict(which=w, method=m) for w in ("bs", "herald1") for m in ("inputs", "outputs", "quick")]),
+        ("sample", h_sample_single, [dict(which=w, sampler_kind=k) for w in ("bs", "herald1", "herald0-lossy", "hom-herald") for k in ("sampler", "quick")]),
+        ("seed", h_seed_reproducible, [dict(which=w, method=m) for w in ("bs", "herald1", "bunch-herald") for m in ("inputs", "outputs", "quick")]),
     ]
